@@ -337,6 +337,9 @@ func validateUTXO(index int, utxo *UTXO, sigs []map[uint16]*crypto.Signature, as
 			}
 			return utxo.Script.Validate(signers)
 		} else {
+			if index >= len(sigs) {
+				return fmt.Errorf("invalid signature map index %d %d", index, len(sigs))
+			}
 			for i, sig := range sigs[index] {
 				if int(i) >= len(utxo.Keys) {
 					return fmt.Errorf("invalid signature map index %d %d", i, len(utxo.Keys))
